@@ -34,6 +34,12 @@ class RawX12File(object):
         self.fd = fin
         self.buffer = None
         line = self.fd.read(ISA_LEN)
+        while len(line) < ISA_LEN:
+            # A read may return fewer characters than requested
+            data = self.fd.read(ISA_LEN - len(line))
+            if not data:
+                break
+            line += data
         if line[:3] != 'ISA':
             err_str = "First line does not begin with 'ISA': %s" % line[:3]
             raise pyx12.errors.X12Error(err_str)
@@ -58,9 +64,12 @@ class RawX12File(object):
         Split the input stream on the delimiter and remove any leading CR-LF
         """
         while True:
-            if self.buffer.find(self.seg_term) == -1:
+            while self.buffer.find(self.seg_term) == -1:
                 # Need more data
-                self.buffer += self.fd.read(DEFAULT_BUFSIZE)
+                data = self.fd.read(DEFAULT_BUFSIZE)
+                if not data:
+                    break
+                self.buffer += data
             if self.buffer.find(self.seg_term) == -1:
                 # Still have no segment terminator
                 break
